@@ -16,6 +16,7 @@ import (
 	"github.com/parquet-go/parquet-go/verifsched/vsync"
 
 	"verif/engine"
+	"verif/pqref"
 )
 
 // C15 — documented concurrent use behaves like some serial execution.
@@ -78,6 +79,42 @@ type c15Scenario struct {
 	cases func(tier string) int
 	// run builds the controlled body for sub-case i and returns the observation it produces
 	body func(i int, tier string) (desc string, body func() string)
+	// accept, if set, says whether an observation that differs from the serial
+	// one is still within what the statements allow
+	accept func(got, ref string) bool
+}
+
+// c15SameAs: got equals ref, or the scenario accepts the difference.
+func c15SameAs(s *c15Scenario, got, ref string) bool {
+	return got == ref || (s.accept != nil && s.accept(got, ref))
+}
+
+// c15EarlierError: both observations end in an error, and got is ref up to an
+// error that came earlier (a prefetching reader may find the damaged page
+// before the consumer gets there, and its error is then final; what is never
+// acceptable is a page the serial run does not return, or a clean end).
+func c15EarlierError(got, ref string) bool {
+	cut := func(o string) ([]string, bool) {
+		var out []string
+		for _, t := range strings.Fields(o) {
+			out = append(out, t)
+			if strings.Contains(t, "err=error") || t == "end:error" {
+				return out, true
+			}
+		}
+		return out, false
+	}
+	g, gerr := cut(got)
+	r, rerr := cut(ref)
+	if !gerr || !rerr || len(g) > len(r) {
+		return false
+	}
+	for i := 0; i < len(g)-1; i++ {
+		if g[i] != r[i] {
+			return false
+		}
+	}
+	return true
 }
 
 func c15Spawn(wg *vsync.WaitGroup, f func()) {
@@ -614,6 +651,63 @@ var c15Scenarios = []c15Scenario{
 			}
 		},
 	},
+	{
+		// the asyncPages protocol over a chunk whose second data page is damaged:
+		// the error the synchronous reader reports must reach the consumer whatever
+		// the prefetching goroutine was doing when the consumer sought or read
+		name:   "S11-asyncPagesCorruptedPage",
+		accept: c15EarlierError,
+		cases:  func(string) int { return len(c15S11Seqs()) },
+		body: func(i int, _ string) (string, func() string) {
+			seq := c15S11Seqs()[i]
+			var names []string
+			for _, o := range seq {
+				names = append(names, c15S1Ops[o])
+			}
+			data := append([]byte(nil), c15S1File()...)
+			pf, err := pqref.Parse(data)
+			if err != nil {
+				panic(err)
+			}
+			infos, err := pf.Pages(0, 0)
+			if err != nil || len(infos) < 2 {
+				panic(fmt.Sprint("S11: pages of column 0: ", err, len(infos)))
+			}
+			last := infos[len(infos)-1]
+			data[last.BodyOffset+int64(last.BodyLen)/2] ^= 0x10
+			return strings.Join(names, ","), func() string {
+				f, err := parquet.OpenFile(bytes.NewReader(data), int64(len(data)))
+				if err != nil {
+					return "open:" + err.Error()
+				}
+				base := f.RowGroups()[0].ColumnChunks()[0].Pages()
+				var pages parquet.Pages = base
+				if verifsched.Active() || asyncOutsideSched {
+					pages = parquet.AsyncPages(base)
+				}
+				return c15PagesOps(pages, seq)
+			}
+		},
+	},
+}
+
+// c15S11Seqs: every sequence of <=3 operations over ReadPage and the three seeks.
+func c15S11Seqs() [][]int {
+	var out [][]int
+	var rec func(cur []int)
+	rec = func(cur []int) {
+		if len(cur) > 0 {
+			out = append(out, append([]int(nil), cur...))
+		}
+		if len(cur) == 3 {
+			return
+		}
+		for o := 0; o < 4; o++ {
+			rec(append(cur, o))
+		}
+	}
+	rec(nil)
+	return out
 }
 
 // asyncOutsideSched: the serial reference of S1 uses the synchronous pages
@@ -691,7 +785,7 @@ func c15Run(x *engine.X) {
 		x.Failf("goroutine-leak", shape, "%s[%s]: %d controlled goroutine(s) still blocked after the scenario finished: %v", s.name, desc, res.Leaked, res.Blocked)
 	case strings.Contains(got, "MISMATCH"):
 		x.Failf("wrong-result", shape, "%s[%s]: a goroutine observed a result that is wrong whatever the order: %s\ntrace tail: %v", s.name, desc, trunc2(got), tailStrings(res.Trace, 16))
-	case got != ref:
+	case !c15SameAs(&s, got, ref):
 		x.Failf("not-serializable", shape, "%s[%s]: result differs from the serial execution\n  schedule result: %s\n  serial result:   %s\ntrace tail: %v", s.name, desc, trunc2(got), trunc2(ref), tailStrings(res.Trace, 16))
 	}
 	x.Outcome(fmt.Sprint(hash64str(got)))
@@ -717,7 +811,7 @@ func init() {
 		ID:    "C15",
 		Level: "model_checking",
 		MC:    true,
-		Rule: "10 scenarios on the real library under the cooperative scheduler - S1 asyncPages consumer sequences (all sequences of <=3 (4 thorough) of ReadPage / SeekToRow(0|5|11) / Close, plus use after Close) against the readPages goroutine; S2 async GenericReader with seeks; S3 two goroutines sharing one File opened with SkipPageIndex+SkipBloomFilters (lazy CAS-published offset index, column index, bloom filter, seek+read); S4 two ConcurrentRowGroupWriters filled concurrently, committed in order; S5 an independent writer next to a reader / another writer sharing the process-wide pools (pool hit/miss chosen by the explorer, poison on release); S6 one goroutine per ColumnWriter; S7 two independent writers of a struct type no writer has seen before, through the reflection path (process-wide struct field cache); S9 two zstd codec values with different levels, one per goroutine; S8 two goroutines on one codec value; S10 one goroutine copying the row groups of an open File verbatim into a new file while another seeks and reads in the same File, which is then read again - x EVERY schedule within the deviation bound (1 quick, 2 thorough): a deviation is a preemption, the choice of a goroutine other than the lowest-id enabled one at a blocking point, or a pool miss; select choices are enumerated freely; " +
+		Rule: "11 scenarios on the real library under the cooperative scheduler - S1 asyncPages consumer sequences (all sequences of <=3 (4 thorough) of ReadPage / SeekToRow(0|5|11) / Close, plus use after Close) against the readPages goroutine; S2 async GenericReader with seeks; S3 two goroutines sharing one File opened with SkipPageIndex+SkipBloomFilters (lazy CAS-published offset index, column index, bloom filter, seek+read); S4 two ConcurrentRowGroupWriters filled concurrently, committed in order; S5 an independent writer next to a reader / another writer sharing the process-wide pools (pool hit/miss chosen by the explorer, poison on release); S6 one goroutine per ColumnWriter; S7 two independent writers of a struct type no writer has seen before, through the reflection path (process-wide struct field cache); S9 two zstd codec values with different levels, one per goroutine; S8 two goroutines on one codec value; S10 one goroutine copying the row groups of an open File verbatim into a new file while another seeks and reads in the same File, which is then read again; S11 the asyncPages protocol (all sequences of <=3 of ReadPage / SeekToRow(0|5|11)) over a chunk whose second data page is damaged: the error must reach the consumer (at the serial position or earlier, never a clean end or another page) - x EVERY schedule within the deviation bound (1 quick, 2 thorough): a deviation is a preemption, the choice of a goroutine other than the lowest-id enabled one at a blocking point, or a pool miss; select choices are enumerated freely; " +
 			"states = distinct scheduler state hashes, transitions = scheduling steps; non-trivial = every distinct schedule",
 		Assumptions: []string{
 			"scheduling points are the library's sync / sync.atomic / channel / go operations (sequential consistency at that granularity); plain-memory data races are outside the cooperative scheduler's view and are looked for by the free-running race-detector pass of the same scenario bodies (sampling; coverage.supplement)",
